@@ -151,6 +151,38 @@ INFO = {
     "W4-C19-riemann2d-radians-feedback": ("2-D Riemann: states converted to radians in place and fed back through the wrapper's attributes", "one object evaluated twice, non-zero flow angle", ""),
     "W4-C20-kenamond3-frobenius-norm-guard": ("Kenamond 3: inert-region guard on np.linalg.norm of the whole point list", "a list that mixes valid points and points inside the obstacle",
                                               "C20 probed the guard with interior points only: interior points among valid ones, judged record by record"),
+    "W5-C01-noh-density-dtype-of-rho0": ("Noh density array created with numpy.full(shape, rho0): takes the dtype of the parameter",
+                                         "rho0 given as a Python int (any whole number), curvilinear geometry ahead of the shock",
+                                         "every generator drew floats (C05's int-typed constructor monitor saw it as built): catalogue scale parameters are whole numbers given as int in one draw of four, C01 schedules an all-int repetition of every class"),
+    "W5-C02-piston-ey-factoring": ("elastic-plastic piston: energy behind the precursor 'factored' so that the 2 of the energy jump multiplies the Gruneisen gamma",
+                                   "Gruneisen gamma != 2", ""),
+    "W5-C03-bbnoh-lazy-pressure": ("black-box Noh: post-shock pressure computed lazily in _run and kept; not reset when the jump conditions are solved again",
+                                   "one object evaluated, then solved again for another state (EOS setter, new starting guess), then evaluated",
+                                   "C03 solved every object once: second solve after an evaluation (co-volume / sound speed through the EOS setter, class-default starting guess)"),
+    "W5-C05-kenamond1-z-view-shift": ("Kenamond 1 vectorised: the z column of the request is shifted in place (a view) and returned as position_z",
+                                      "geometry 3 and a detonator with z != 0", ""),
+    "W5-C06-ehep-hoisted-else": ("EHEP: the 'point in no region' branch hoisted in front of the loop as an initialisation",
+                                 "a point in no polygon (x <= 0, x >= xmax, x = xtilde early) after a point with a non-vacuum state in the same request", ""),
+    "W5-C07-sandwich-tb-or-default": ("planar sandwiches: kwargs.get('TB') or self.TB (same idiom as W3-C14, found independently, three classes)",
+                                      "TB == 0 exactly", ""),
+    "W5-C08-blake-class-dict-moduli": ("Blake._run reads the elastic constants from the class-level dictionary that every constructor updates",
+                                       "two Blake objects with different constants alive, the first evaluated after the second was constructed",
+                                       "C08 built and evaluated one unit system after the other: in half of the cases the original problem is evaluated again after the scaled solver was built and used (C06 and C15 saw it as built)"),
+    "W5-C09-kenamond2-td-inplace-shift": ("Kenamond 2: detonation times shifted in place to be relative to t_d3 (numpy.asarray does not copy a float64 array)",
+                                          "t_d passed as a float64 ndarray, t_d[2] != 0, a second evaluation that shares the array",
+                                          "every check passed lists and tuples: the harness hands sequence-valued constructor parameters over as float64 arrays in half of the constructions"),
+    "W5-C13-base-last-request-cache": ("ExactSolver.__call__ remembers the last request and its solution, keyed on the caller's own array",
+                                       "one object called twice in a row at the same time with the same array object whose contents were changed in place",
+                                       "C13 built a new array for every request (C05's re-filled buffer monitor saw it as built): in half of the cases the harness keeps one work array per solver object and refills it in place"),
+    "W5-C14-sandwichhalf-early-exit": ("PlanarSandwichHalf gets its own series loop that stops 'once converged' (term negligible at the requested points)",
+                                       "a request all of whose points are nodes of one low mode (single-point probes at x/L = 2/3, 2/5, 4/5), early time",
+                                       "C14's stencils were sent as one request: the heat equation is also evaluated from single-point requests centred on rational x/L (C06 saw it as built)"),
+    "W5-C17-guderley-reflected-density-jump": ("Guderley: density jump across the reflected shock inverted in a tidy-up of the jump block",
+                                               "after the collapse time, behind the reflected shock",
+                                               "C17 judged Guderley's positivity only: converging and reflected shocks located from the fields and required to be compressive (C02 saw it as built)"),
+    "W5-C20-sedov-np-interp-clamp": ("Sedov: scipy interp1d (bounds error) replaced by numpy.interp (clamps)",
+                                     "a request with a negative radius and t > 0",
+                                     "C20 sent negative radii to Blake only: Sedov in every geometry, negative radii alone and among valid points"),
 }
 
 
